@@ -289,7 +289,7 @@ def r_retrieve_tree(repo, rep, R, what):
             if rt.split:
                 # the builder's value is not used as a cache key by its parent (the key is read off the child items):
                 # it hands back nothing (stack form) or the tree it built (value form)
-                ret_ok = (st.ret is None or st.ret == C(None)) if not rt.split['value_mode'] else (st.ret is not None and stack[-1:] == [st.ret])
+                ret_ok = (st.ret is None or st.ret in (C(None), A(item, 'cat'))) if not rt.split['value_mode'] else (st.ret is not None and stack[-1:] == [st.ret])
             rep.check(ret_ok, R, w(rt.fn), 'retrieve_tree:%s:return' % k,
                       'the %s path returns item.cat (used as cache key by the parent)' % k,
                       'the %s path returns %s' % (k, show(st.ret) if st.ret else None))
